@@ -260,6 +260,7 @@ func (st *State) entCall(fr *Frame, in ssa.CallInstruction, callee *ssa.Function
 				}
 				w := st.world()
 				w.onCommit = append(w.onCommit, fv)
+				st.analyzeCommitHook(fr, in, fv)
 				k(st, nil)
 				return true
 			case "OnRollback":
@@ -431,14 +432,30 @@ func (st *State) memberArr(h *HeapView, sv *SliceV) *Term {
 	}
 	es := ls[0].Sort
 	arr := st.heapGet(h, "E|"+typeKey(sv.Elem)+"|", ArrS(SInt, ArrS(SInt, es)), ls[0].IsRef)
-	key := "mem:" + arr.S + "|" + sv.Base.S + "|" + sv.Off.S + "|" + sv.Len.S
+	inner := st.innerArray(arr, sv.Base)
+	key := "mem:" + inner.S + "|" + sv.Off.S + "|" + sv.Len.S
 	if m, ok := st.ghostObj[key].(*Term); ok {
 		return m
 	}
 	m := st.fresh("member", ArrS(es, SBool))
+	el := func(i *Term) *Term { return Select(inner, Add(sv.Off, i)) }
+	if n, ok := sv.Len.Lit.(*big.Int); ok && n.Int64() <= 6 {
+		// short slice of known length: membership is a finite disjunction
+		st.n++
+		v := Const(fmt.Sprintf("v!q%d", st.n), es)
+		var ds []*Term
+		for j := int64(0); j < n.Int64(); j++ {
+			ds = append(ds, Eq(v, el(IntLit(j))))
+		}
+		st.assume(Forall([]*Term{v}, Eq(Select(m, v), Or(ds...)), Select(m, v)))
+		for j := int64(0); j < n.Int64(); j++ {
+			st.assume(Select(m, el(IntLit(j))))
+		}
+		st.ghostObj[key] = m
+		return m
+	}
 	w := st.fresh("memwit", ArrS(es, SInt))
 	i := st.qv("i")
-	el := func(i *Term) *Term { return Select(Select(arr, sv.Base), Add(sv.Off, i)) }
 	st.assume(Forall([]*Term{i}, Implies(And(Ge(i, IntLit(0)), Lt(i, sv.Len)), Select(m, el(i))), el(i)))
 	st.n++
 	v := Const(fmt.Sprintf("v!q%d", st.n), es)
@@ -1108,4 +1125,99 @@ func (st *State) colValueOf(col *entCol, v SVal) *Term {
 func (st *State) blobLen(base *Term) *Term {
 	f := st.declareFun("blob_len", []Sort{SInt}, SInt)
 	return App(SInt, f, base)
+}
+
+// ---------------------------------------------------------------------------
+// On-commit hooks (C09 / C10)
+//
+// tx.OnCommit(f) registers f: func(Committer) Committer. The hook is analysed at registration time by
+// running the committer it builds twice on copies of the current state:
+//   * the wrapped commit fails with error e: the hook must return exactly e and must not request any
+//     wake-up (obligations of kind "hook");
+//   * the wrapped commit succeeds: the hook must return nil; the subscriptions it wakes
+//     (ghost wake_requested, set by the contract of WakePublishListeners) are added to the ghost set
+//     wake_on_commit of the current state.
+const commitErrLit = 770077
+
+func (st *State) analyzeCommitHook(fr *Frame, in ssa.CallInstruction, hook *FuncV) {
+	u := st.u
+	site := st.siteName(fr, in, "hook")
+	if !fr.isUnit {
+		site = fr.fn.Name() + "/" + site
+	}
+	run := func(commitResult int64, done func(st2 *State, res SVal)) int {
+		st2 := st.clone()
+		st2.ghostObj["commitResult"] = IntLit(commitResult)
+		// start from "nothing requested" so that the hook's own requests can be read off afterwards
+		st2.heapSet(st2.ghostKey("wake_requested"), App(ArrS(SInt, SBool), "(as const (Array Int Bool))", TFalse))
+		fr2 := st2.frames[len(st2.frames)-1]
+		n := 0
+		committer := &IfaceV{Tag: IntLit(int64(st2.e.typeID("ent.committer"))), Val: IntLit(1), CVal: &EntH{Kind: "committer"}}
+		st2.inline(fr2, nil, hook.Fn, hook.Bindings, []SVal{committer}, func(st3 *State, wrapped SVal) {
+			iv, ok := wrapped.(*IfaceV)
+			if !ok {
+				st3.unsupported("commit hook does not return a Committer")
+			}
+			g, ok := iv.CVal.(*FuncV)
+			if !ok || g.Fn == nil {
+				st3.unsupported("commit hook returns an unknown Committer")
+			}
+			fr3 := st3.frames[len(st3.frames)-1]
+			ctx := st3.freshVal("hookctx", g.Fn.Params[0].Type())
+			txv := st3.freshVal("hooktx", g.Fn.Params[1].Type())
+			st3.inline(fr3, nil, g.Fn, g.Bindings, []SVal{ctx, txv}, func(st4 *State, res SVal) {
+				n++
+				done(st4, res)
+			})
+		})
+		return n
+	}
+	wakeKey := st.ghostKey("wake_requested")
+	wakeSort := ArrS(SInt, SBool)
+	props := mergeProps(u.c.Props, []string{"C09"})
+	// failure mode
+	emptySet := App(ArrS(SInt, SBool), "(as const (Array Int Bool))", TFalse)
+	run(commitErrLit, func(st4 *State, res SVal) {
+		before := emptySet
+		after := st4.heapGet(st4.heap, wakeKey, wakeSort, false)
+		st4.beginBatch()
+		st4.e.addObligation(st4, u, "hook", "returns-commit-error", site, Eq(st4.scalar(res), IntLit(commitErrLit)), props, "an on-commit hook returns the error of the commit it wraps", false)
+		st4.e.addObligation(st4, u, "hook", "no-wake-without-commit", site, Eq(after, before), props, "no waiter is woken when the commit failed", false)
+		st4.endBatch()
+	})
+	// success mode
+	var final *State
+	paths := run(0, func(st4 *State, res SVal) {
+		st4.e.addObligation(st4, u, "hook", "returns-nil-after-commit", site, Eq(st4.scalar(res), IntLit(0)), props, "an on-commit hook returns nil when the commit succeeded", false)
+		final = st4
+	})
+	if paths == 0 {
+		return
+	}
+	after := final.heapGet(final.heap, wakeKey, wakeSort, false)
+	if final.nver[wakeKey] == st.nver[wakeKey]+1 && len(final.havocLog) == len(st.havocLog) {
+		return // the hook wakes nobody (only the initial reset touched the ghost)
+	}
+	if paths != 1 {
+		st.unsupported("an on-commit hook that wakes subscribers has several paths")
+	}
+	// import the success path's declarations and facts, keep the current heap, and add the woken
+	// subscriptions to wake_on_commit
+	heap, pre, labels := st.heap, st.pre, st.labels
+	frames := st.frames
+	ghost := st.ghostObj
+	shadow := st.shadow
+	log := st.havocLog
+	allocB, allocOff := final.allocB, final.allocOff
+	*st = *final
+	st.heap, st.pre, st.labels, st.frames, st.ghostObj, st.shadow, st.havocLog = heap, pre, labels, frames, ghost, shadow, log
+	st.allocB, st.allocOff = allocB, allocOff // references allocated by the hypothetical run are never reused
+	st.pending = nil
+	wk := st.ghostKey("wake_on_commit")
+	cur := st.heapGet(st.heap, wk, wakeSort, false)
+	st.nver[wk]++
+	nw := st.declare(fmt.Sprintf("%s#%d", wk, st.nver[wk]), wakeSort)
+	s := st.qv("s")
+	st.assume(Forall([]*Term{s}, Eq(Select(nw, s), Or(Select(cur, s), Select(after, s))), Select(nw, s)))
+	st.heap.vers[wk] = nw
 }
